@@ -185,7 +185,13 @@ public:
          and is_nothrow_constructible_v<detail::variant_alternative_selector_t<T, Ts...>, T>)
     ) -> variant&
     {
-        emplace<detail::variant_alternative_selector_t<T, Ts...>>(etl::forward<T>(t));
+        using alternative    = detail::variant_alternative_selector_t<T, Ts...>;
+        constexpr auto target = meta::index_of_v<alternative, meta::list<Ts...>>;
+        if (index() == target) {
+            (*this)[index_v<target>] = etl::forward<T>(t);
+        } else {
+            emplace<alternative>(etl::forward<T>(t));
+        }
         return *this;
     }
 
